@@ -97,8 +97,8 @@ func RealLit(s string) *Term {
 }
 func Var(name string, s *Sort) *Term { return &Term{Op: "var", Name: name, S: s} }
 
-func (t *Term) IsTrue() bool  { return t.Op == "bool" && t.B }
-func (t *Term) IsFalse() bool { return t.Op == "bool" && !t.B }
+func (t *Term) IsTrue() bool   { return t.Op == "bool" && t.B }
+func (t *Term) IsFalse() bool  { return t.Op == "bool" && !t.B }
 func (t *Term) IsIntLit() bool { return t.Op == "int" }
 func (t *Term) IsStrLit() bool { return t.Op == "str" }
 
